@@ -86,13 +86,30 @@ struct Cx<'a> {
     checks: u32,
     both_panic: u32,
     register: bool,
+    /// First few inherent outcomes, kept only for sampled cases (evidence text).
+    detail: Vec<String>,
 }
 
 impl Cx<'_> {
     /// An inherent result was produced: check its canonical form too.
-    fn seen<T: Canon>(&mut self, r: &Result<T, Panic>) {
+    fn seen<T: Canon + Debug>(&mut self, r: &Result<T, Panic>) {
         if let Ok(v) = r {
             v.canon(self.m);
+        }
+        if self.m.sampling() && self.detail.len() < 4 {
+            let mut t = match r {
+                Ok(v) => format!("{v:?}"),
+                Err(p) => format!("panic({})", p.msg),
+            };
+            if t.len() > 70 {
+                let mut e = 70;
+                while !t.is_char_boundary(e) {
+                    e -= 1;
+                }
+                t.truncate(e);
+                t.push('…');
+            }
+            self.detail.push(t);
         }
     }
 
@@ -242,7 +259,7 @@ fn all_zero(a: &[Arg]) -> bool {
 
 fn exec<const B: usize, const L: usize>(m: &mut Mon, op: &str, a: &[Arg]) {
     let register = m.evaluations < 8192 || m.evaluations % 16 == 0;
-    let mut c = Cx { m, checks: 0, both_panic: 0, register };
+    let mut c = Cx { m, checks: 0, both_panic: 0, register, detail: vec![] };
     c.m.nontrivial(!all_zero(a));
     match op {
         "binop" => binop::<B, L>(&mut c, a),
@@ -256,7 +273,13 @@ fn exec<const B: usize, const L: usize>(m: &mut Mon, op: &str, a: &[Arg]) {
         _ => panic!("harness: unknown op {op}"),
     }
     let (n, p) = (c.checks, c.both_panic);
-    c.m.obs(|| format!("{n} facade outcomes equal the inherent outcome ({p} of them: both panic)"));
+    let detail = std::mem::take(&mut c.detail);
+    c.m.obs(|| {
+        format!(
+            "{n} facade outcomes compared with the inherent outcome ({p} of them: both panic); first inherent outcomes: {}",
+            detail.join(" | ")
+        )
+    });
 }
 
 // ---------------------------------------------------------------- binop
